@@ -1,6 +1,7 @@
 import Cose.Driver.Cwt
 import Cose.Driver.CborOps
 import Cose.Driver.MapOps
+import Cose.Driver.PrimOps
 /-!
 Line-protocol driver: one operation per input line, one answer per output line.
 `<family>.<op> arg…` → answer.  Unknown operations answer `unknown-op` (never a default value).
@@ -11,7 +12,7 @@ def answer (line : String) : String :=
   match tokens (line.trimAscii.toString) with
   | [] => ""
   | op :: args =>
-    match (Cwt.dispatch op args <|> CborOps.dispatch op args <|> MapOps.dispatch op args) with
+    match (Cwt.dispatch op args <|> CborOps.dispatch op args <|> MapOps.dispatch op args <|> PrimOps.dispatch op args) with
     | some r => r
     | none => "unknown-op"
 
